@@ -183,3 +183,36 @@ def rand_pair(rng, max_side=6, max_inst=4, dims=(1, 2, 3), dtype=None):
     ref = rand_blobs(rng, shape, rng.randint(0, max_inst), dtype=dtype)
     pred = perturb(rng, ref) if rng.random() < 0.7 else rand_blobs(rng, shape, rng.randint(0, max_inst), dtype=dtype)
     return pred.astype(dtype), ref.astype(dtype)
+
+
+def code_boundary_labels(rng, bits):
+    """(pmax, rmax): largest prediction / reference labels whose integer pair code pred*(max_ref+1)+ref straddles 2^bits
+    (pmax*(rmax+1) still fits, the code of the pair (pmax, rmax) does not) -- the magnitudes where a fixed-width encoding wraps"""
+    lo, hi = {8: (128, 254), 16: (256, 65534), 32: (2 ** 12, 2 ** 24 - 2)}[bits]
+    for _ in range(200):
+        rmax = rng.randint(lo, hi)
+        pmax = (2 ** bits - 1) // (rmax + 1)
+        if pmax >= 1 and pmax < 2 ** 24 and pmax * (rmax + 1) + rmax >= 2 ** bits:
+            return pmax, rmax
+    return 1, hi
+
+
+def code_boundary_pair(rng, bits=None):
+    """an unmatched pair whose labels sit at a pair-code boundary; dtype just wide enough for the labels (or wider)"""
+    bits = bits or rng.choice([8, 16, 32])
+    pmax, rmax = code_boundary_labels(rng, bits)
+    dts = {8: ["uint8", "uint16"], 16: ["uint16", "uint32"], 32: ["uint32", "uint64"]}[bits]
+    dt = rng.choice(dts)
+    w = rng.randint(10, 16)
+    ref = np.zeros((3, w), dt); pred = np.zeros((3, w), dt)
+    r1 = rng.randint(1, rmax - 1)
+    p1 = rng.randint(1, pmax - 1) if pmax > 1 else None
+    a = rng.randint(2, 4)
+    ref[0:2, 0:a] = r1
+    ref[0:3, a + 1:a + 5] = rmax
+    pred[0:3, a + 1 + rng.randint(0, 1):a + 5] = pmax              # (pmax, rmax) overlap: the code that wraps
+    if p1 is not None:
+        pred[0:2, 0:a - rng.randint(0, 1)] = p1
+        if rng.random() < 0.5:
+            pred[2, a + 1:a + 3] = p1                               # p1 also overlaps rmax
+    return pred, ref
